@@ -26,7 +26,7 @@ ENV.pop('PYQSC_VERIF', None)
 TRUSTED_BASE = [
     'Coq 8.16.1 kernel and vm_compute (no native_compute); full .vo builds',
     'axioms (standard library, via Reals): ClassicalDedekindReals.sig_forall_dec, ClassicalDedekindReals.sig_not_dec, FunctionalExtensionality.functional_extensionality_dep',
-    'translator tools/py2coq.py + tools/gen.py (fail-closed symbolic interpreter of the Python AST); validated each run by parse-back evaluation of the generated Coq text against the running implementation',
+    'translator tools/py2coq.py + tools/gen.py (fail-closed symbolic interpreter of the Python AST); validated each run (a) by evaluating the generated `prog` terms INSIDE Coq (theories/FloatEval.v: generic list evaluator proved equal to the model semantics Expr.eval/run on the reals, run on PrimFloat by vm_compute) on the data of live objects and comparing every output binding and oracle residual equation with the implementation to 1e-9 relative, and (b) by an independent parse-back evaluation of the generated Coq text with numpy',
     'real arithmetic stands for float arithmetic; np.matmul(d_d_varphi, .) is modelled as (D_phi .)/d_varphi_d_phi',
     'committed tables/*.json (dimension / sign of each public attribute)',
     'checks whose obligations include theories/FloatOrder.v (C02, C12, C20) additionally rely on the standard library\'s specification axioms of primitive floats (Coq.Floats.FloatAxioms: ltb_spec, leb_spec, eqb_spec; in its RealSemantics module also abs_spec, Prim2SF_valid, SF2Prim_Prim2SF, Prim2SF_SF2Prim and, through Flocq/Reals, Classical_Prop.classic); the evidence field `axioms` lists what Print Assumptions reported',
@@ -87,7 +87,7 @@ def reflective(prop, tier, seed, oracle_module, level_note, extra_obligations=No
             p = run(['python3', os.path.join(HERE, 'mkprops.py'), prop])
             if p.returncode != 0:
                 problems.append('mkprops: ' + (p.stdout + p.stderr)[-1500:])
-        th = coqbuild.build_theories(NEEDS.get(prop))
+        th = coqbuild.build_theories((NEEDS.get(prop) or []) + ['Expr', 'FloatEval'] if NEEDS.get(prop) else None)
         for r in th:
             if not r['ok']:
                 problems.append('theory %s does not compile: %s' % (r['file'], r['out'][-800:]))
@@ -166,17 +166,20 @@ def reflective(prop, tier, seed, oracle_module, level_note, extra_obligations=No
         for m in corr.get('mismatches', []):
             problems.append('correspondence: ' + m)
     ties = {}
-    for (tmod, targs) in (extra_harness or []):
+    extra_harness = list(extra_harness or [])
+    if prop not in NO_FLOAT_TIE:
+        extra_harness.append(('tie_floateval', []))
+    for (tmod, targs) in extra_harness:
         tr = harness(tmod, targs + ['--mode', 'check', '--seed', str(seed), '--n', str(n), '--tier', tier])
         if 'error' in tr:
             problems.append('correspondence harness %s: %s' % (tmod, tr['error']))
         else:
             for m in tr.get('mismatches', []):
-                problems.append('correspondence (%s): %s' % (tmod, m))
+                problems.append('correspondence (%s): %s' % (tmod, m if isinstance(m, str) else json.dumps(m, default=str)[:400]))
             if isinstance(corr, dict) and 'error' not in corr:
                 corr.setdefault('violations', []).extend(tr.get('violations', []))
                 corr['programs_validated'] = corr.get('programs_validated', 0) + tr.get('programs_validated', 0)
-            ties[tmod] = dict((k, tr.get(k)) for k in ('configs', 'programs_validated', 'bindings_compared', 'max_rel_err', 'distribution', 'predictions_checked', 'summary'))
+            ties[tmod] = dict((k, tr.get(k)) for k in ('configs', 'programs', 'cases', 'programs_validated', 'bindings_compared', 'bindings_skipped_oracle', 'worst_rel_err', 'max_rel_err', 'distribution', 'predictions_checked', 'summary', 'seconds') if tr.get(k) is not None)
     known = [k for k in load_known()['findings'] if k['property'] == prop]
     known_hits = []
     viol = corr.get('violations', []) if isinstance(corr, dict) else []
@@ -434,9 +437,13 @@ def check_C12(tier, seed):
                       'the model shows that an accepted LINEAR candidate smaller than the accepted quadratic one of the same iteration is discarded (synthetic witness only); '
                       'Jacobian coefficients (props/C12_jacobian.v): the code\'s g0, g1c, g20, g2c, g2s ARE the coefficients of the triple product e_r.(e_theta x e_phi) of the second-order position vector '
                       '(series algebra of C01_spec; pure algebra), no other harmonic occurs through r^3 except g1s, and g1s vanishes by the O(r^2) Jacobian identity of C01. For order-r3 objects the code still uses the '
-                      'second-order position vector (the r^3 average of the full Jacobian is g20 + 4 lambda g0: C12_coefficients_r3), as the property states.',
-                      gprops=False, gprops_from=[('C08', rs), ('C07', rs)], seq_obligations=['props/C12_quartic.v'] + C01_SEQ_R2 + ['props/C12_jacobian.v'], theory_obligations=['RootSelect', 'Series', 'FloatOrder'],
-                      theorems=['C12_quartic', 'C12_K_relation', 'RootSelect.rc_is_sentinel_or_candidate', 'RootSelect.rc_minimal', 'RootSelect.no_candidate_sentinel',
+                      'second-order position vector (the r^3 average of the full Jacobian is g20 + 4 lambda g0: C12_coefficients_r3), as the property states. '
+                      'Completeness of the double-root characterisation (props/C12_firstzero.v, pure real analysis with the standard library and Coquelicot; props/C12_bridge.v over the regenerated program): '
+                      'for g0 <> 0, if the truncated Jacobian vanishes for some r > 0 then the set of such r has a least element rc > 0, the zero at rc is a double root in theta '
+                      '("smallest positive zero radius" = "smallest positive double-root radius", both unique), hence sin(2 theta) at the first zero is a root of the quartic the program solves at that grid point; '
+                      'with no positive zero there is no double root (sentinel case). These two files additionally use Classical_Prop.classic (through continuity_ab_min and Coquelicot).',
+                      gprops=False, gprops_from=[('C08', rs), ('C07', rs)], seq_obligations=[['props/C12_quartic.v', 'props/C12_firstzero.v']] + C01_SEQ_R2 + [['props/C12_jacobian.v', 'props/C12_bridge.v']], theory_obligations=['RootSelect', 'Series', 'FloatOrder'],
+                      theorems=['C12_quartic', 'C12_K_relation', 'C12_firstzero.first_zero_exists_and_is_double', 'C12_firstzero.first_zero_iff_least_double', 'C12_bridge.C12_first_zero_is_quartic_root', 'RootSelect.rc_is_sentinel_or_candidate', 'RootSelect.rc_minimal', 'RootSelect.no_candidate_sentinel',
                                 'RootSelect.rsing_min_le', 'RootSelect.quadratic_candidate_exact', 'RootSelect.linear_candidate_exact',
                                 'C12_jacobian.C12_coefficients_r2', 'C12_jacobian.C12_coefficients_r3', 'C12_jacobian.C12_jacobian_h0', 'C12_jacobian.C12_jacobian_hN', 'C12_jacobian.g1s_vanishes',
                                 'FloatOrder.rc_minimal_float', 'FloatOrder.rc_minimal_quadratic_float', 'FloatOrder.r_singularity_minimal_float', 'FloatOrder.rsing_min_le_float', 'FloatOrder.rc_not_nan_float',
@@ -533,6 +540,8 @@ C01_SEQ_R2 = ['props/C04_spec.v', 'props/C01_spec.v', 'props/C01_common.v', ['pr
 C01_SEQ = ['props/C04_spec.v', 'props/C01_spec.v', 'props/C01_common.v', ['props/C01_facts2.v', 'props/C01_facts3.v', 'props/C01_r1.v'], 'props/C01_r2base.v', ['props/C01_r2a.v', 'props/C01_r2b.v', 'props/C01_r2c.v', 'props/C01_r3a.v', 'props/C01_r3b.v'], 'props/C01_r2.v', 'props/C01_r3.v', 'props/C01.v']
 
 
+# checks whose obligations do not read the translated formula programs (object / effect / kernel models): the in-Coq float evaluation of the programs is not part of them
+NO_FLOAT_TIE = {'C16', 'C17', 'C18', 'C20'}
 # hand-written theories each check depends on (others are not built, so work in progress elsewhere cannot disturb it)
 NEEDS = {
     'C08': ['Expr', 'Equiv', 'Dim'], 'C07': ['Expr', 'Equiv', 'Sign', 'Shift', 'Shallow', 'DiffMat'], 'C05': ['Expr', 'Equiv', 'Sign', 'Shift', 'Shallow', 'DiffMat'],
